@@ -92,11 +92,13 @@ func checkC16(c *Ctx) {
 	c.Clause("the header name is RequestHeaderName/TraceHeaderName(cfg) on both sides")
 	c.Clause("generated identifiers derive from crypto/rand.Read over a buffer of ≥ 12 bytes")
 	c.Clause("buildHandler applies RequestContextMiddleware outermost on every non-error path")
+	c.Clause("the ID headers set before the chain survive an interim (1xx) response, after which httputil empties the header map: the writer given to the reverse proxy restores a snapshot of the pre-set headers")
 	c.NotDecided("a second value added by inner layers (backend echo through httputil's additive header copy, the request-id plugin); statistical uniqueness")
 
 	// The rules are stated end to end on the middleware's handler, with the logging package's own
 	// helpers inlined: whether the two identifiers are handled by two functions, one shared helper or
 	// inline code makes no difference.
+	c.presetHeadersSurviveInterim()
 	rcm := p.Fn("internal/logging", "", "RequestContextMiddleware")
 	var inner *ssa.Function
 	if rcm != nil {
